@@ -133,7 +133,7 @@ def driver_generators():
     return [gen.topology.generate, gen.ff.generate, gen.consts.generate]
 
 
-def build_and_audit(pid: str, gens=(), extra_targets=()) -> Build:
+def build_and_audit(pid: str, gens=(), extra_targets=(), gens2=()) -> Build:
     """Regenerate Gen files, build the driver + Props module, audit axioms."""
     b = Build()
     t0 = time.time()
@@ -147,9 +147,16 @@ def build_and_audit(pid: str, gens=(), extra_targets=()) -> Build:
         b.gen_files.update(other.gen_files)
         b.notes = other.problems
         props_mod = f"P2P.Props.{pid}"
+        if gens2:
+            # phase 2: generators that need the compiled driver (model evaluated on generated tables)
+            r0 = subprocess.run(["lake", "build", "driver"], cwd=LEAN, capture_output=True, text=True)
+            if r0.returncode == 0:
+                run_generators(gens2, b)
+            else:
+                b.log += r0.stdout + r0.stderr
         targets = ["driver", props_mod, *extra_targets]
         r = subprocess.run(["lake", "build", *targets], cwd=LEAN, capture_output=True, text=True)
-        b.log = r.stdout + r.stderr
+        b.log += r.stdout + r.stderr
         if r.returncode != 0:
             b.ok = False
             # name what failed
